@@ -40,10 +40,32 @@ def entryEco (args : List String) : String :=
   match args with
   | port :: r :: rest =>
     match port.toNat?, r.toNat?, parseNetArgs rest with
-    | some _, some _, some na => showRes showEco (ecoResult (ecoDocument na.script)) ++ " ;; "
+    | some _, some _, some na =>
+      let doc := ecoDocument na.script
+      -- the document handed over is logged like a received delivery
+      showRes showEco (ecoResult doc) ++ " ;; " ++ (match doc with | some d => s!"R0:-:{d.length}" | none => "")
     | _, _, _ => "bad-case"
   | _ => "bad-case"
 
-def ecoEntries : List (String × (List String → String)) := [("eco", entryEco)]
+/-- `eco_http` / `eco_http6 <port (unused)> <retries (unused)> <script>`: the real query against a one-shot loopback HTTP
+server (127.0.0.1 / [::1], ephemeral port shown as `P`).  First connection `X` or no connection: nothing listens
+(`H:-`); no data first: the server accepts and stays mute; data first: it answers `200 OK` with that body.  The trace
+is the request line and the Host header the server saw: `GET /frontpage`, Host = the caller's address. -/
+def entryEcoHttp (v6 : Bool) (args : List String) : String :=
+  match args with
+  | port :: r :: rest =>
+    match port.toNat?, r.toNat?, parseNetArgs rest with
+    | some _, some _, some na =>
+      let host := if v6 then "[::1]" else "127.0.0.1"
+      let seen := s!"H:GET_{Eco.PATH}_HTTP/1.1|Host:_{host}:P"
+      match na.script with
+      | .opened (.data d :: _) :: _ => showRes showEco (ecoResult (some d)) ++ " ;; " ++ seen ++ s!" R0:-:{d.length}"
+      | .opened _ :: _ => showRes showEco (ecoResult none) ++ " ;; " ++ seen
+      | _ => showRes showEco (ecoResult none) ++ " ;; H:-"
+    | _, _, _ => "bad-case"
+  | _ => "bad-case"
+
+def ecoEntries : List (String × (List String → String)) :=
+  [("eco", entryEco), ("eco_http", entryEcoHttp false), ("eco_http6", entryEcoHttp true)]
 
 end Gd.Run
